@@ -261,6 +261,23 @@ func clauseHasProp(c *Contract, p string) bool {
 				return true
 			}
 		}
+		for _, cl := range l.Steps {
+			if hasProp(cl.Props, p) {
+				return true
+			}
+		}
+	}
+	for _, cl := range c.AtReturn {
+		if hasProp(cl.Props, p) {
+			return true
+		}
+	}
+	for _, cls := range c.Callsites {
+		for _, cl := range cls {
+			if hasProp(cl.Props, p) {
+				return true
+			}
+		}
 	}
 	return false
 }
